@@ -575,3 +575,91 @@ Definition chk_C10 (c : chain_case) (o : op) (ok : bool) (prev cur : val) : list
       if weights_unchanged_except prev cur (fun _ _ => false) then [] else [10]
   end)%list.
 Definition mon_C10 := mon_steps chk_C10.
+
+(* ---------- C07: a claim pays the weight share, epoch by epoch ----------
+   For an accepted Claim in the class covered by the theorems (the user has a cursor c; none of his weight entries for the
+   LP denoms he stakes is older than c; the contract's weight history for them starts at or before c+1), the payout per coin
+   denom equals the sum over his LP denoms' farms and over the epochs (c, u] within each farm's span of
+   floor(rate * his weight in effect / total weight in effect), the weights being read from the observed LP_WEIGHT_HISTORY by
+   plain carry-forward. *)
+Definition cursor_of (c : chain_case) (s : val) (a : string) : option Z :=
+  match find (fun x => String.eqb (fst x) a) (combine (cc_addrs c) (vlist (vnth 9 s))) with
+  | Some (_, VL [VZ z]) => Some z
+  | _ => None
+  end.
+Definition cf_w (ws : list (string * string * Z * Z)) (a d : string) (e : Z) : option Z :=
+  let r := fold_left (fun (acc : Z * Z) (x : string * string * Z * Z) =>
+                        match x with (xa, xd, ep, w) =>
+                          if String.eqb xa a && String.eqb xd d && (ep <=? e) && (fst acc <? ep) then (ep, w) else acc end) ws (-1, 0) in
+  if fst r <? 0 then None else Some (snd r).
+Definition min_epoch_w (ws : list (string * string * Z * Z)) (a d : string) : option Z :=
+  fold_left (fun (acc : option Z) (x : string * string * Z * Z) =>
+               match x with (xa, xd, ep, _) =>
+                 if String.eqb xa a && String.eqb xd d then
+                   match acc with Some m => Some (Z.min m ep) | None => Some ep end
+                 else acc end) ws None.
+Definition staked_denoms (s : val) (a : string) : list string :=
+  nodup string_dec (map (fun p => fst (position_lp p))
+                        (filter (fun p => position_open p && String.eqb (position_owner p) a) (snap_positions s))).
+Definition farm_reward_expected (ws : list (string * string * Z * Z)) (f : val) (user : string) (c u : Z) : Z :=
+  let lp := vgetS (vnth 2 f) in let rate := vgetZ (vnth 5 f) in let st := vgetZ (vnth 6 f) in let en := vgetZ (vnth 7 f) in
+  fold_left (fun acc e =>
+               if e <? st then acc else
+               match cf_w ws FM lp e with
+               | Some tw => if tw =? 0 then acc else acc + rate * (match cf_w ws user lp e with Some uw => uw | None => 0 end) / tw
+               | None => acc
+               end) (epoch_range (c + 1) (Z.min u (en - 1))) 0.
+Definition claim_class_ok (ws : list (string * string * Z * Z)) (user : string) (lps : list string) (c : Z) : bool :=
+  forallb (fun lp =>
+             forallb (fun x => match x with (xa, xd, ep, _) => negb (String.eqb xa user && String.eqb xd lp) || (c <=? ep) end) ws &&
+             match min_epoch_w ws FM lp with Some e0 => e0 <=? c + 1 | None => false end) lps.
+Definition chk_C07 (c : chain_case) (o : op) (ok : bool) (prev cur : val) : list Z :=
+  if negb ok then [] else
+  match o with
+  | Tx sender target (WFm (FmClaim _)) _ =>
+      if negb (String.eqb target FM) || negb (is_user c sender) then [] else
+      match cursor_of c prev sender, cursor_of c cur sender with
+      | Some c0, Some u =>
+          let ws := snap_weights prev in
+          let lps := staked_denoms prev sender in
+          if negb (claim_class_ok ws sender lps c0) then [] else
+          let farms := filter (fun f => existsb (String.eqb (vgetS (vnth 2 f))) lps) (snap_farms prev) in
+          if forallb (fun d =>
+                        let expected := fold_left (fun acc f => if String.eqb (vgetS (vnth 0 (vnth 3 f))) d
+                                                                then acc + farm_reward_expected ws f sender c0 u else acc) farms 0 in
+                        match balance_of c prev sender d, balance_of c cur sender d with
+                        | Some b0, Some b1 => b1 - b0 =? expected
+                        | _, _ => true
+                        end) (denoms_of_snapshot c prev)
+          then [] else [7]
+      | _, _ => []
+      end
+  | _ => []
+  end.
+Definition mon_C07 := mon_steps chk_C07.
+(* C06, one-sided: in that class nobody is paid MORE than the weight share (which is what keeps an epoch's payouts within
+   its emission) *)
+Definition chk_C06w (c : chain_case) (o : op) (ok : bool) (prev cur : val) : list Z :=
+  if negb ok then [] else
+  match o with
+  | Tx sender target (WFm (FmClaim _)) _ =>
+      if negb (String.eqb target FM) || negb (is_user c sender) then [] else
+      match cursor_of c prev sender, cursor_of c cur sender with
+      | Some c0, Some u =>
+          let ws := snap_weights prev in
+          let lps := staked_denoms prev sender in
+          if negb (claim_class_ok ws sender lps c0) then [] else
+          let farms := filter (fun f => existsb (String.eqb (vgetS (vnth 2 f))) lps) (snap_farms prev) in
+          if forallb (fun d =>
+                        let expected := fold_left (fun acc f => if String.eqb (vgetS (vnth 0 (vnth 3 f))) d
+                                                                then acc + farm_reward_expected ws f sender c0 u else acc) farms 0 in
+                        match balance_of c prev sender d, balance_of c cur sender d with
+                        | Some b0, Some b1 => b1 - b0 <=? expected
+                        | _, _ => true
+                        end) (denoms_of_snapshot c prev)
+          then [] else [6]
+      | _, _ => []
+      end
+  | _ => []
+  end.
+Definition mon_C06w (c : chain_case) (obs : val) : list Z := (mon_C06 c obs ++ mon_steps chk_C06w c obs)%list.
